@@ -1,16 +1,132 @@
 """C09 - see DESIGN.md section 4/C09. Lab property: every model/configuration point within k deviations of
-the base point is generated, compiled against the mock runtime and exercised by the generated driver."""
+the base point is generated, compiled against the mock runtime and exercised by the generated driver.
+
+Additionally (both origins in ONE program): for a handful of points a 'create' shell and an 'import' shell of the same
+encapsulee - hence in the same C++ namespace - are generated with different suffixes, compiled as separate
+translation units and linked with a main that chains them the documented way (the create shell's Locator() feeds the
+import shell): each shell must apply the check of ITS OWN origin and use the facilities of its own origin.
+"""
+from ..core import Partial, pmap
+from .. import lab
+from .. import modelgen as M
+from .. import build as B
 from . import labcommon
 
-RULE = ("per model point, both origins: the shell is constructed for every subset of {dispatcher, runtime, unrelated service} in the user's locator (8 subsets): throw/no-throw verdict, identity of the locator/dispatcher/runtime seen by the component at construction, content of the shell's locator, user's locator unmodified, presence/absence of the Locator() accessor")
+RULE = ("per model point, both origins: the shell is constructed for every subset of {dispatcher, runtime, unrelated service} in the user's locator (8 subsets): throw/no-throw verdict, identity of the locator/dispatcher/runtime seen by the component at construction, content of the shell's locator, user's locator unmodified, presence/absence of the Locator() accessor; plus create and import shells of one encapsulee linked into one program and chained")
 PID = 'C09'
+
+TWO_ORIGIN_DELTAS = [{}, {'mc': 'p0:0'}, {'ns': ''}, {'ns': 'N.M'}, {'kind': 'system', 'ns': ''}, {'ninj': 1},
+                     {'psem': 'STS', 'rsem': 'allsts'}, {'prefix': 'Other.Project'}]
+
+
+def two_origin_points():
+    out = []
+    for d in TWO_ORIGIN_DELTAS:
+        pt = dict(M.BASE_POINT)
+        pt.update(d)
+        if M.valid_point(pt):
+            out.append(pt)
+    return out
+
+
+def two_origin_main(facts, cfg_c, cfg_i):
+    sns = lab.support_ns(cfg_c)
+    scope = '::' + '::'.join(list(facts.scope)) if facts.scope else ''
+    create_t = f'{scope}::{facts.base}{cfg_c["suffix"]}'
+    import_t = f'{scope}::{facts.base}{cfg_i["suffix"]}'
+    mc = bool(cfg_c.get('mc'))
+    log = 'log_, ' if mc else ''
+    lines = [f'#include "{facts.base}{cfg_c["suffix"]}.hh"', f'#include "{facts.base}{cfg_i["suffix"]}.hh"',
+             '#include "verif_probe.hh"', '#include <memory>', '#include <stdexcept>',
+             'template <class F> static bool throws(F f, std::string& what) { try { f(); } catch (const std::exception& e) { what = e.what(); return true; } what.clear(); return false; }',
+             'int main() {', '  std::setvbuf(stdout, nullptr, _IOLBF, 0);', '  dzn::locator proto; std::string what;']
+    if mc:
+        lines.append(f'  {sns}::ILog log_;')
+    for p in facts.injected:
+        lines.append(f'  {p.cpp_itf} inj_{p.name}{{{{{{"i",nullptr,nullptr,nullptr}},{{"",nullptr,nullptr,nullptr}}}}}}; proto.set(inj_{p.name});')
+    lines += [
+        f'  std::unique_ptr<{create_t}> cs; std::unique_ptr<{import_t}> is;',
+        f'  bool t1 = throws([&]{{ cs.reset(new {create_t}(proto, {log}"c")); }}, what);',
+        '  verif::emit("C09", "two-origins:create-on-empty-prototype", "constructs", !t1, what);',
+        '  if (t1) { verif::emit("LAB", "done", "main", true, ""); return 0; }',
+        '  dzn::pump* own_pump = cs->Locator().try_get<dzn::pump>(); dzn::runtime* own_rt = cs->Locator().try_get<dzn::runtime>();',
+        '  verif::emit("C09", "two-origins:create-owns-facilities", "locator", own_pump && own_rt && verif::registry().pump == own_pump, "");',
+        '  verif::registry().reset();',
+        f'  bool t2 = throws([&]{{ is.reset(new {import_t}(cs->Locator(), {log}"i")); }}, what);',
+        '  verif::emit("C09", "two-origins:import-accepts-the-create-shells-locator", "constructs", !t2, what);',
+        '  verif::emit("C09", "two-origins:import-uses-that-dispatcher", "identity", t2 || (verif::registry().pump == own_pump && verif::registry().runtime == own_rt && verif::registry().locator == &cs->Locator()), "");',
+        f'  bool t3 = throws([&]{{ {import_t} tmp(proto, {log}"i2"); }}, what);',
+        '  verif::emit("C09", "two-origins:import-rejects-empty-locator", "throws", t3, what);',
+        f'  bool t4 = throws([&]{{ {create_t} tmp(cs->Locator(), {log}"c2"); }}, what);',
+        '  verif::emit("C09", "two-origins:create-rejects-complete-locator", "throws", t4, what);',
+        '  dzn::pump up; dzn::runtime ur; dzn::locator partial; partial.set(up);',
+    ]
+    for p in facts.injected:
+        lines.append(f'  partial.set(inj_{p.name});')
+    lines += [
+        f'  bool t5 = throws([&]{{ {import_t} tmp(partial, {log}"i3"); }}, what);',
+        '  verif::emit("C09", "two-origins:import-rejects-locator-without-runtime", "throws", t5, what);',
+        f'  bool t6 = throws([&]{{ {create_t} tmp(partial, {log}"c3"); }}, what);',
+        '  verif::emit("C09", "two-origins:create-rejects-locator-with-dispatcher", "throws", t6, what);',
+        '  is.reset(); cs.reset();',
+        '  verif::emit("LAB", "done", "main", true, "");', '  return 0; }']
+    return '\n'.join(lines) + '\n'
+
+
+def two_origin_task(pt):
+    part = Partial()
+    case = lab.make_case(pt)
+    pid = case['id']
+    part.evaluations += 1
+    part.states += 1
+    rcase = {'two_origins': True, 'point': pt}
+    try:
+        facts = M.Facts(case['model'])
+        cfg_c = dict(case['cfg'], fac='create', suffix='Crt')
+        cfg_i = dict(case['cfg'], fac='import', suffix='Imp')
+        files_c = B.build(case['model'], cfg_c)
+        files_i = B.build(case['model'], cfg_i)
+        src, _names = lab.generate_sources(case)
+        del src['driver.cc']
+        for name, text, _h in files_c + files_i:
+            src[name] = text
+        src['main_two.cc'] = two_origin_main(facts, cfg_c, cfg_i)
+    except Exception as exc:  # pylint: disable=broad-except
+        part.violation(f'generation-failed:{type(exc).__name__}', f'point {pid}: {exc!r}', rcase)
+        return part
+    res = lab.run_sources(src, main=[files_c[1][0], files_i[1][0], 'main_two.cc'])
+    if not res['compiled']:
+        first = (res['compile_error'].splitlines() or ['?'])[0]
+        norm = first.split('error:')[-1].split('multiple definition of')[-1].split(';')[0].strip()[:70]
+        part.violation(f'two-origins:program-does-not-build:{norm}',
+                       f'point {pid}: a create shell and an import shell of one encapsulee cannot be linked into one '
+                       f'program: {res["compile_error"][:500]}', rcase)
+        part.outcome('two-origins:no-build')
+        return part
+    done = any(ln['prop'] == 'LAB' and ln['group'] == 'done' for ln in res['lines'])
+    if res['exit'] != 0 or not done:
+        part.violation('two-origins:run-aborted', f'point {pid}: exit {res["exit"]} {res["stderr"][:300]}', rcase)
+    part.nontrivial += 1
+    for ln in res['lines']:
+        if ln['prop'] != PID:
+            continue
+        part.transitions += 1
+        part.outcome(ln['group'])
+        if not ln['ok']:
+            part.violation(f'{ln["group"]}', f'point {pid}: {ln["group"]} {ln["subject"]}: {ln["detail"][:300]}', rcase)
+    return part
 
 
 def judge(case):
+    if case.get('two_origins'):
+        part = two_origin_task(case['point'])
+        return [(k, v[0]) for k, v in part.violations.items()]
     return labcommon.judge_point(case, PID)
 
 
 def explore(ctx):
     labcommon.explore_lab(ctx, PID, 1, 2)
+    for part in pmap(two_origin_task, two_origin_points()):
+        ctx.merge(part)
     ctx.rule = RULE
     ctx.min_outcomes = 2
